@@ -7,6 +7,7 @@ an `…_native.bv_decide.ax_*` axiom which the audit lists by name.
 -/
 import ElfioVerif.Basic
 import ElfioVerif.Gen.Funcs
+import ElfioVerif.Gen.SitesC11
 import ElfioVerif.Gen.SitesC10
 import Std.Tactic.BVDecide
 
@@ -42,12 +43,67 @@ theorem conv64_bytes (a b c d e f g h : BitVec 8) :
     conv64 (h ++ g ++ f ++ e ++ d ++ c ++ b ++ a) true = a ++ b ++ c ++ d ++ e ++ f ++ g ++ h := by
   simp only [conv64]; bv_decide
 
+/-! ### C11: the relocation info macros (ELF32_R_SYM/TYPE/INFO, ELF64_R_SYM/TYPE/INFO)
+as they occur in `get_sym_and_type<T>` and at the packing sites of `add_entry` / `generic_set_entry_*`.
+ELF32 packs 24+8 bits, ELF64 packs 32+32 bits. -/
+
+/-- ELF32: the symbol survives packing iff it fits 24 bits (the info word is 32 bits in the file) -/
+theorem rel32_sym_pack (s t : BitVec 32) (hs : s < 16777216#32) :
+    rel32_r_sym (BitVec.setWidth 64 (BitVec.setWidth 32 (reloc_addrel_pack32 s t))) = s := by
+  simp only [rel32_r_sym, reloc_addrel_pack32]; bv_decide
+/-- ELF32: the type survives packing iff it fits 8 bits -/
+theorem rel32_type_pack (s t : BitVec 32) (ht : t < 256#32) :
+    rel32_r_type (BitVec.setWidth 64 (BitVec.setWidth 32 (reloc_addrel_pack32 s t))) = t := by
+  simp only [rel32_r_type, reloc_addrel_pack32]; bv_decide
+/-- ELF32 in general: `(unsigned char)(t)` keeps the low 8 bits of the type, whatever the symbol -/
+theorem rel32_type_pack_any (s t : BitVec 32) :
+    rel32_r_type (BitVec.setWidth 64 (BitVec.setWidth 32 (reloc_addrel_pack32 s t))) = t &&& 255#32 := by
+  simp only [rel32_r_type, reloc_addrel_pack32]; bv_decide
+/-- ELF32 in general: the symbol comes back reduced to 24 bits -/
+theorem rel32_sym_pack_any (s t : BitVec 32) :
+    rel32_r_sym (BitVec.setWidth 64 (BitVec.setWidth 32 (reloc_addrel_pack32 s t))) = s &&& 16777215#32 := by
+  simp only [rel32_r_sym, reloc_addrel_pack32]; bv_decide
+/-- ELF64: every 32-bit symbol and every 32-bit type survive packing (also types ≥ 2^31, which
+    pass through the `int` return type of the extractor) -/
+theorem rel64_sym_pack (s t : BitVec 32) : rel64_r_sym (reloc_addrel_pack64 s t) = s := by
+  simp only [rel64_r_sym, reloc_addrel_pack64]; bv_decide
+theorem rel64_type_pack (s t : BitVec 32) : rel64_r_type (reloc_addrel_pack64 s t) = t := by
+  simp only [rel64_r_type, reloc_addrel_pack64]; bv_decide
+/-- re-packing what was unpacked gives the info word back (`set_entry` with the values of `get_entry`) -/
+theorem rel32_pack_unpack (i : BitVec 64) :
+    BitVec.setWidth 32 (reloc_addrel_pack32 (rel32_r_sym i) (rel32_r_type i)) = BitVec.setWidth 32 i := by
+  simp only [rel32_r_sym, rel32_r_type, reloc_addrel_pack32]; bv_decide
+theorem rel64_pack_unpack (i : BitVec 64) :
+    reloc_addrel_pack64 (rel64_r_sym i) (rel64_r_type i) = i := by
+  simp only [rel64_r_sym, rel64_r_type, reloc_addrel_pack64]; bv_decide
+/-- the mask in `ELF64_R_TYPE` / `ELF64_R_INFO` is reduction to 32 bits -/
+theorem and_mask32 (x : BitVec 64) : x &&& 4294967295#64 = BitVec.setWidth 64 (BitVec.setWidth 32 x) := by
+  bv_decide
+/-- an addend that fits 32 bits signed survives the ELF32 narrowing and sign extension -/
+theorem sext32_trunc_of_fits (a : BitVec 64) (h1 : BitVec.sle (-2147483648#64) a = true)
+    (h2 : BitVec.sle a 2147483647#64 = true) :
+    BitVec.signExtend 64 (BitVec.setWidth 32 a) = a := by
+  bv_decide
+
+end ElfioVerif
+
+namespace ElfioVerif
+open Gen
+/-- flag tests of the membership rule: `(flags & F) == F` for a single-bit `F` is a bit test -/
+theorem and_eq_bit1 (x : BitVec 64) : ((x &&& 2#64) == 2#64) = x.getLsbD 1 := by
+  bv_decide
+theorem and_eq_bit10 (x : BitVec 64) : ((x &&& 1024#64) == 1024#64) = x.getLsbD 10 := by
+  bv_decide
+theorem and_ne_bit10 (x : BitVec 64) : ((x &&& 1024#64) != 1024#64) = !x.getLsbD 10 := by
+  bv_decide
 /-! ### C10 — the ELF_ST_BIND tests of `generic_arrange_local_symbols` and the r_info packing of
 `generic_set_entry_rel/rela` against the `get_r_sym` / `get_r_type` extractors -/
 
-theorem arr_scan1_nonlocal_bits (b : BitVec 8) : arr64_scan1_nonlocal b = (b >>> 4 != 0#8) := by
+theorem arr_scan1_nonlocal_bits (b : BitVec 8) :
+    arr64_scan1_nonlocal arr_conv8 b = (b >>> 4 != 0#8) := by
   simp only [arr64_scan1_nonlocal, arr_conv8, STB_LOCAL]; bv_decide
-theorem arr_scan2_local_bits (b : BitVec 8) : arr64_scan2_local b = (b >>> 4 == 0#8) := by
+theorem arr_scan2_local_bits (b : BitVec 8) :
+    arr64_scan2_local arr_conv8 b = (b >>> 4 == 0#8) := by
   simp only [arr64_scan2_local, arr_conv8, STB_LOCAL]; bv_decide
 
 theorem rel64_sym_info (s t : BitVec 32) :
